@@ -346,3 +346,59 @@ Lemma failed_receive_lemma msg fds e closed :
 Proof.
   intros H. pose proof (receive_conserves_lemma _ _ _ _ H) as C. cbn in C. split; [reflexivity|exact C].
 Qed.
+
+(* ---------------- the soft-stop floor counted from the slab ---------------- *)
+
+Lemma filter_map_snd (sl : slab) : length (filter negb (map snd sl)) = length (filter stays sl).
+Proof. induction sl as [|[p c] sl IH]; [reflexivity|]. cbn. unfold stays at 1. cbn. destruct c; cbn; lia. Qed.
+
+Lemma filter_length_le {A} (f : A -> bool) l : length (filter f l) <= length l.
+Proof. induction l as [|a l IH]; cbn; [lia|]. destruct (f a); cbn; lia. Qed.
+
+Lemma filter_length_all {A} (f : A -> bool) l :
+  length l <= length (filter f l) -> forall x, In x l -> f x = true.
+Proof.
+  induction l as [|a l IH]; intros H x I; [destruct I|].
+  cbn in H. destruct (f a) eqn:F; cbn in H.
+  - destruct I as [<-|I]; [exact F|]. apply IH; [lia|exact I].
+  - pose proof (filter_length_le f l). lia.
+Qed.
+
+Lemma filter_all_id {A} (f : A -> bool) l : (forall x, In x l -> f x = true) -> filter f l = l.
+Proof.
+  induction l as [|a l IH]; intros H; [reflexivity|]. cbn. rewrite (H a (or_introl eq_refl)).
+  f_equal. apply IH. intros x I. apply H. right. exact I.
+Qed.
+
+Lemma slab_turn_answered sl id ans s' :
+  slab_turn sl id ans = (s', true) ->
+  answers s' = ans ++ [id] /\ stopping s' = None /\
+  forall e, In e sl -> snd e = false -> is_permanent e = true.
+Proof.
+  unfold slab_turn, shut_down_sessions. cbn [stopping base sessions accepting answers].
+  rewrite filter_map_snd. unfold listen_slots.
+  destruct (length (filter stays sl) <=? length (filter is_permanent (filter stays sl))) eqn:E; intros H; inversion H; subst; clear H.
+  cbn [answers stopping]. split; [reflexivity|]. split; [reflexivity|].
+  intros e I C. apply Nat.leb_le in E.
+  apply (filter_length_all is_permanent (filter stays sl) E). apply filter_In. split; [exact I|]. unfold stays. rewrite C. reflexivity.
+Qed.
+
+Lemma slab_turn_completes sl id ans :
+  (forall e, In e sl -> is_permanent e = false -> snd e = true) ->
+  exists s', slab_turn sl id ans = (s', true).
+Proof.
+  intros H. unfold slab_turn, shut_down_sessions. cbn [stopping base sessions accepting answers].
+  rewrite filter_map_snd. unfold listen_slots.
+  rewrite (filter_all_id is_permanent (filter stays sl)).
+  - rewrite Nat.leb_refl. eexists. reflexivity.
+  - intros x I. apply filter_In in I. destruct I as [I S]. unfold stays in S.
+    destruct (is_permanent x) eqn:P; [reflexivity|]. rewrite (H x I P) in S. discriminate S.
+Qed.
+
+Lemma protocols_split :
+  forall p, p < protocol_count ->
+    existsb (Nat.eqb p) permanent_protocols = negb (existsb (Nat.eqb p) client_protocols).
+Proof.
+  intros p H. unfold protocol_count in H.
+  do 11 (destruct p as [|p]; [vm_compute; reflexivity|]). lia.
+Qed.
